@@ -23,11 +23,11 @@ import (
 type both struct {
 	failIdx  int
 	failReal hx.Real
-	ec      *gen.ExecCase
-	real    hx.Real
-	m       model.Result
-	groups  [][]hx.Posting
-	grouped bool
+	ec       *gen.ExecCase
+	real     hx.Real
+	m        model.Result
+	groups   [][]hx.Posting
+	grouped  bool
 }
 
 func runBoth(ec *gen.ExecCase) *both {
